@@ -479,7 +479,9 @@ fn stitch_skips_headless_bands(only: Option<&Value>) -> R {
         }
         drop(archive);
         let all = |v: usize| -> Vec<IndexEntry> { hunks[v].iter().flatten().cloned().collect() };
-        let states = ["interrupted, intact", "BANDHEAD deleted", "BANDHEAD emptied", "BANDHEAD garbage", "only the bare directory left", "directory gone", "BANDHEAD and BANDTAIL deleted (was complete)"];
+        let states = ["interrupted, intact", "BANDHEAD deleted", "BANDHEAD emptied", "BANDHEAD garbage", "only the bare directory left", "directory gone", "BANDHEAD and BANDTAIL deleted (was complete)",
+            // round 8 (seed C08-6 made `band_exists` look at the directory only): what a delete killed part way leaves
+            "BANDHEAD and index deleted, BANDTAIL left (half-deleted)"];
         for state in states {
             for (k1, k2) in [(1usize, 1usize), (3, 1), (1, 2), (3, 2), (4, 3)] {
                 let input = json!({"b0000": "complete", "b0001": state, "b0001_hunks": k1, "b0002": "interrupted, intact head", "b0002_hunks": k2});
@@ -499,7 +501,10 @@ fn stitch_skips_headless_bands(only: Option<&Value>) -> R {
                 cut(2, k2, hunks[2].len())?;
                 let b1 = work.join("b0001");
                 let mut b1_usable = false;
-                if state.starts_with("BANDHEAD and BANDTAIL") {
+                if state.starts_with("BANDHEAD and index deleted") {
+                    su!(std::fs::remove_file(b1.join("BANDHEAD")));
+                    su!(std::fs::remove_dir_all(b1.join("i")));
+                } else if state.starts_with("BANDHEAD and BANDTAIL") {
                     su!(std::fs::remove_file(b1.join("BANDTAIL")));
                     su!(std::fs::remove_file(b1.join("BANDHEAD")));
                 } else {
